@@ -1,5 +1,7 @@
 from __future__ import unicode_literals
 
+import copy
+
 from typing import List
 
 from .alignment import Alignment
@@ -47,7 +49,7 @@ class TableStyle:
     @classmethod
     def borderless(cls):  # type: () -> TableStyle
         style = TableStyle()
-        style.border_style = BorderStyle.none()
+        style.border_style = copy.copy(BorderStyle.none())
         style.border_style.line_hc_char = "="
         style.border_style.line_vc_char = " "
         style.border_style.crossing_c_char = " "
@@ -57,7 +59,7 @@ class TableStyle:
     @classmethod
     def compact(cls):  # type: () -> TableStyle
         style = TableStyle()
-        style.border_style = BorderStyle.none()
+        style.border_style = copy.copy(BorderStyle.none())
         style.border_style.line_hc_char = ""
         style.border_style.line_vc_char = " "
         style.border_style.crossing_c_char = ""
@@ -69,7 +71,7 @@ class TableStyle:
         style = TableStyle()
         style.header_cell_format = " {} "
         style.cell_format = " {} "
-        style.border_style = BorderStyle.ascii()
+        style.border_style = copy.copy(BorderStyle.ascii())
 
         return style
 
@@ -78,6 +80,6 @@ class TableStyle:
         style = TableStyle()
         style.header_cell_format = " {} "
         style.cell_format = " {} "
-        style.border_style = BorderStyle.solid()
+        style.border_style = copy.copy(BorderStyle.solid())
 
         return style
